@@ -26,6 +26,8 @@ def ref_curve(name, el, D, tau):
         return D * max(0.0, 1.0 - el / (3 * tau))
     if name == "user_kwonly":
         return D * 0.5 ** (el / tau)
+    if name == "user_partial":
+        return D * (1 - 1 / tau) ** el
     if name == "user_init_first":
         return D * max(0.0, 1.0 - el / (2.0 * tau))
     if name == "user_allkw":
@@ -334,7 +336,7 @@ def c10_step(tr, st, c):
             fld, d0 = ("arb", "arb0") if a["kind"] == "arbitrary" else ("dmg", "dmg0")
             D = a[d0]
             evd = tr.sc["events"][i] if i < len(tr.sc["events"]) else None
-            if evd is not None and evd.get("curve") in ("linear", "convexe", "convexe noscale", "concave", "user_swapped", "user_kwonly", "user_fixed_speed", "user_jump", "user_init_first", "user_allkw"):
+            if evd is not None and evd.get("curve") in ("linear", "convexe", "convexe noscale", "concave", "user_swapped", "user_kwonly", "user_fixed_speed", "user_jump", "user_init_first", "user_allkw", "user_partial"):
                 with np.errstate(all="ignore"):
                     D = ref_curve(evd["curve"], 0, a[d0], evd["recovery_tau"])     # concave with tau = 1 is 0 at once
                 D = np.where(np.isfinite(D), D, 0.0)
